@@ -575,3 +575,137 @@ def triangle_is_hyperbolic(p, q, r):
     """1/p + 1/q + 1/r < 1 exactly (0 = infinity)."""
     s = sum(Fraction(1, m) for m in (p, q, r) if m > 0)
     return s < 1
+
+
+# ---------------------------------------------------------------------------
+# any-length numeric oracles and a reference automaton (witness finder)
+
+def _reflect(B, s, v):
+    """sigma_s(v) = v - 2 B(alpha_s, v) alpha_s, in place on a copy."""
+    v = v.copy()
+    v[s] -= 2.0 * float(B[s] @ v)
+    return v
+
+
+def _root_sign(v):
+    """+1 / -1 for a root vector (all coefficients of one sign, the non-zero
+    ones >= 1 in modulus); raises when rounding noise has destroyed that."""
+    hi, lo = float(np.max(v)), float(np.min(v))
+    noise = 1e-7 * max(1.0, hi, -lo)
+    if hi >= 0.5 and lo > -noise:
+        return 1
+    if lo <= -0.5 and hi < noise:
+        return -1
+    raise ArithmeticError("root coordinates lost their sign pattern: %r" % (v,))
+
+
+def is_reduced_numeric(M, word, B=None):
+    """same criterion as reduced_by_roots, O(k^2 n) with vector reflections."""
+    B = cosine_matrix(M) if B is None else B
+    n = len(M)
+    for i, s in enumerate(word):
+        v = np.zeros(n)
+        v[s] = 1.0
+        for t in reversed(word[:i]):
+            v = _reflect(B, t, v)
+        if _root_sign(v) < 0:
+            return False
+    return True
+
+
+def is_shortlex_numeric(M, word, B=None):
+    """a reduced word s1..sk is the lexicographically least reduced word of its
+    element iff for every i no generator t < s_i is a left descent of the
+    suffix u_i = s_i..s_k, i.e. u_i^-1(alpha_t) = s_k..s_i(alpha_t) > 0.
+    (If w' < w were another reduced word of the element, first differing at
+    position i with letter t < s_i, then t would be a left descent of u_i.)"""
+    B = cosine_matrix(M) if B is None else B
+    if not is_reduced_numeric(M, word, B):
+        return False
+    n = len(M)
+    k = len(word)
+    for i in range(k):
+        for t in range(word[i]):
+            v = np.zeros(n)
+            v[t] = 1.0
+            for s in word[i:]:
+                v = _reflect(B, s, v)
+            if _root_sign(v) < 0:
+                return False
+    return True
+
+
+class ReferenceAutomaton:
+    """Brink-Howlett style automaton written independently of the library
+    (states = frozensets of elementary-root indices, computed lazily).  It is a
+    *witness finder* only: a word on which it disagrees with the library's
+    automaton is then judged by the exact numeric oracles above, never by this
+    class."""
+
+    def __init__(self, M, shortlex):
+        self.M = M
+        self.n = n = len(M)
+        self.shortlex = shortlex
+        self.B = B = cosine_matrix(M)
+        roots = [np.eye(n)[i] for i in range(n)]
+        index = {self._key(r): i for i, r in enumerate(roots)}
+        i = 0
+        while i < len(roots):
+            beta = roots[i]
+            for s in range(n):
+                f = float(B[s] @ beta)
+                if -1.0 + 1e-9 < f < -1e-9:
+                    g = beta.copy()
+                    g[s] -= 2.0 * f
+                    k = self._key(g)
+                    if k not in index:
+                        index[k] = len(roots)
+                        roots.append(g)
+            i += 1
+            if len(roots) > 5000:
+                raise OverflowError("too many elementary roots")
+        self.roots = roots
+        R = len(roots)
+        # act[r][s] = index of s(root r) when that is an elementary root, else -1
+        self.act = [[-1] * n for _ in range(R)]
+        for r, beta in enumerate(roots):
+            for s in range(n):
+                if r == s:
+                    continue
+                g = _reflect(B, s, beta)
+                self.act[r][s] = index.get(self._key(g), -1)
+        # preimages: for letter s, pairs (r, act[r][s])
+        self.pre = [[(r, self.act[r][s]) for r in range(R) if self.act[r][s] >= 0]
+                    for s in range(n)]
+        self.lex_add = [[self.act[j][s] for j in range(s) if self.act[j][s] >= 0]
+                        for s in range(n)]
+        self.start = frozenset()
+        self._cache = {}
+
+    @staticmethod
+    def _key(v):
+        return tuple(int(round(x * 1e7)) for x in v)
+
+    def step(self, state, s):
+        """next state or None when the letter is not allowed."""
+        if s in state:
+            return None
+        k = (state, s)
+        nxt = self._cache.get(k)
+        if nxt is None:
+            new = {s}
+            for r, img in self.pre[s]:
+                if img in state:
+                    new.add(r)
+            if self.shortlex:
+                new.update(self.lex_add[s])
+            nxt = self._cache[k] = frozenset(new)
+        return nxt
+
+    def accepts(self, word):
+        st = self.start
+        for s in word:
+            st = self.step(st, s)
+            if st is None:
+                return False
+        return True
